@@ -1911,6 +1911,20 @@ def run(c):
         "after": ["nothing", "same_target", "further", "reversed"],
         "entry": ["raw", "py_kw", "py_pos", "py_default"],
         "archive": ["none", "step", "interval"],
+        # what the integrator has to cope with during the run, and its non-default options (added after seed C08-j: TRACE peri_mode=FULL_IAS15
+        # x pericentre passage in the last full step x exact finish off the step grid was in no case)
+        "physics": ["benign", "encounter", "peri_early", "peri_last_step"],
+        "opt": ["default", "alt1", "alt2"],
+    }
+    OPTS = {   # integrator -> (alt1, alt2): attribute settings
+        "trace": ({"ri_trace.peri_mode": "FULL_IAS15"}, {"ri_trace.peri_mode": "FULL_BS"}),
+        "mercurius": ({"ri_mercurius.L": "infinity", "ri_mercurius.r_crit_hill": 5.0}, {"ri_mercurius.L": "C4"}),
+        "whfast": ({"ri_whfast.coordinates": "democraticheliocentric"}, {"ri_whfast.kernel": "lazy", "ri_whfast.corrector": 5}),
+        "saba": ({"ri_saba.type": "(10,6,4)"}, {"ri_saba.type": "CL(4)"}),
+        "eos": ({"ri_eos.phi0": "LF4"}, {"ri_eos.phi0": "PMLF6"}),
+        "ias15": ({"ri_ias15.adaptive_mode": 1}, {"ri_ias15.adaptive_mode": 0, "ri_ias15.min_dt": 1e-3}),
+        "bs": ({"ri_bs.eps_abs": 1e-9, "ri_bs.eps_rel": 1e-9}, {"ri_bs.max_dt": 0.02}),
+        "janus": ({"ri_janus.order": 4}, {"ri_janus.scale_pos": 1e-13, "ri_janus.scale_vel": 3e-15}),
     }
     PNAMES = list(PF)
     SAFE_INTEGS = ("whfast", "saba", "eos", "mercurius")
@@ -1936,11 +1950,16 @@ def run(c):
             return "adding real particles after variational ones breaks the particle layout (refused by add)"
         if v.get("roles") == "var" and str(v.get("event", "")).startswith("empty"):
             return "remove_all_particles leaves var_config entries pointing at removed particles (undefined)"
-        if v.get("roles") == "var" and v.get("restore") in ("pickle", "file", "copy") and it == "leapfrog":
-            return None
+        if v.get("opt") in ("alt1", "alt2") and it is not None and it not in OPTS:
+            return "integrator has no options that reach the time bookkeeping"
+        if v.get("physics") in ("encounter", "peri_early", "peri_last_step") and it in ("none", "sei"):
+            return "NONE / SEI scenes have no orbits"
         return None
 
     def valid(case):
+        # (ternary) variational equations exist only for the default WHFast options (Jacobi coordinates, default kernel)
+        if case["integ"] == "whfast" and case["roles"] == "var" and case["opt"] != "default":
+            return False
         for i, f in enumerate(PNAMES):
             for g in PNAMES[i + 1:]:
                 if excluded(f, case[f], g, case[g]):
@@ -2005,6 +2024,26 @@ def run(c):
                                 break
     else:
         todo = [cs for i, cs in enumerate(array) if i % 2 == c.seed % 2]
+    # 3-way (every tier): integrator x option x physics, with the core of the contract (exact finish, target off the step grid, one call,
+    # nothing else going on) - the conjunction seed C08-j needed - and, in thorough, also without exact finish and with a follow-up call
+    core = dict(dtsign="+", exact=1, pattern="single", target="off", safe=1, roles="plain", edit="none", restore="none", callbacks="none",
+                event="none", after="further", entry="raw", archive="none")
+    n3 = 0
+    for it in PF["integ"]:
+        for op_ in PF["opt"]:
+            for ph in PF["physics"]:
+                drs = PF["dir"] if thorough else (["fwd", "bwd"] if (n3 + c.seed) % 3 else ["bwd", "fwd"])
+                done3 = False
+                for dr in drs:
+                    cand = dict(core, integ=it, opt=op_, physics=ph, dir=dr)
+                    if done3 and not thorough:
+                        break
+                    if valid(cand):
+                        done3 = True
+                        todo.append(cand); n3 += 1
+                        if thorough:
+                            todo.append(dict(cand, exact=0, entry="py_kw"))
+    c.cov["threeway_integ_opt_physics_cases"] = n3
 
     pstat = {"array_cases": len(array), "run": 0, "errors": {}, "calls": 0}
     seen_pairs = set()
@@ -2023,6 +2062,23 @@ def run(c):
         else:
             nt = 2 if case["roles"] == "testp" else 0
             sim = planets(integ, rng, dt, n_test=nt, n_active=(3 if nt else None))
+            if case["physics"] in ("peri_early", "peri_last_step"):
+                # the inner planet is replaced by one on an e = 0.95 orbit whose pericentre passage falls into the warm-up call, or into the
+                # last FULL step before the (first) target of the pattern (mean motion 1: the mean anomaly is the time to pericentre)
+                off_n = {"on": 4.0, "off": 4.37, "ulp": 4.0, "short": 0.4}[case["target"]]
+                t_peri = 0.1 if case["physics"] == "peri_early" else 0.23 + unit * max(0.0, math.floor(off_n) - 0.6)
+                p1 = rebound.Particle(simulation=sim, primary=sim.particles[0], m=sim.particles[1].m, a=1.0, e=0.95, M=-dirn * t_peri)
+                for k_ in ("x", "y", "z", "vx", "vy", "vz"):
+                    setattr(sim.particles[1], k_, getattr(p1, k_))
+            elif case["physics"] == "encounter":
+                p2 = rebound.Particle(simulation=sim, primary=sim.particles[0], m=sim.particles[2].m, a=rng.uniform(0.9, 1.2), e=rng.uniform(0.3, 0.5),
+                                      f=rng.uniform(0, 6.28), omega=rng.uniform(0, 6.28))
+                for k_ in ("x", "y", "z", "vx", "vy", "vz"):
+                    setattr(sim.particles[2], k_, getattr(p2, k_))
+            if case["opt"] != "default":
+                for path_, val_ in OPTS[integ][0 if case["opt"] == "alt1" else 1].items():
+                    obj_, attr_ = path_.split(".")
+                    setattr(getattr(sim, obj_), attr_, val_)
         if case["roles"] == "var":
             var = sim.add_variation()
             var.particles[1].x = 1.0; var.particles[2].vy = 0.5
